@@ -28,6 +28,7 @@ func init() {
 		spaces[p+".twosets"] = func(t string) mck.Space { return twoSetSpace(v9, flowh.Kinds(v9, true)) }
 		spaces[p+".allelems"] = func(t string) mck.Space { return allElemSpace(v9) }
 		spaces[p+".loaded"] = func(t string) mck.Space { return loadedElemSpace(v9) }
+		spaces[p+".counts"] = func(t string) mck.Space { return countsSpace(v9, t) }
 	}
 }
 
@@ -396,5 +397,144 @@ func elemSpace(v9 bool, label string) mck.Space {
 		wire := runFlowCase(c, fc, name+":"+label)
 		c.Nontrivial(fc.hash)
 		c.Sample(func() interface{} { return describe(fc, wire) })
+	}}
+}
+
+// countsSpace: how MANY - records in a set, fields in a template, data sets in a message, templates in a
+// template set, and (IPFIX) variable-length values whose length differs from record to record - with N
+// around the small powers of two and other plausible limits. Whatever a decoder pre-sizes, caps or
+// memoises per message / per set / per template shows here and nowhere in the small-shape spaces.
+func countsSpace(v9 bool, tier string) mck.Space {
+	kinds := flowh.Kinds(v9, true)
+	var fixed []flowh.Kind
+	var vstr *flowh.Kind
+	for i, k := range kinds {
+		if k.F.Len != 65535 && k.F.Len >= 1 && k.F.Len <= 8 && k.F.PEN == 0 {
+			fixed = append(fixed, k)
+		}
+		if k.F.Len == 65535 && k.F.Type == ref.TString && vstr == nil {
+			vstr = &kinds[i]
+		}
+	}
+	counts := []int{1, 2, 3, 4, 7, 8, 9, 15, 16, 17, 18, 31, 32, 33, 63, 64, 65, 100, 127, 128, 129, 255, 256, 257, 511, 512, 513, 1000, 1023, 1024, 1025, 4000}
+	if tier == "thorough" {
+		counts = nil
+		for n := 1; n <= 1100; n++ {
+			counts = append(counts, n)
+		}
+		counts = append(counts, 2047, 2048, 2049, 4000, 4095, 4096, 4097)
+	}
+	modes := []string{"records", "fields", "sets", "templates", "varlen"}
+	dims := mck.Radix{uint64(len(modes)), uint64(len(counts)), 2}
+	name := "ipfix"
+	if v9 {
+		name = "v9"
+	}
+	return mck.FuncSpace{N: dims.Size(), F: func(idx uint64, c *mck.Ctx) {
+		d := dims.Digits(idx)
+		mode, n, same := modes[d[0]], counts[d[1]], d[2] == 1
+		tpls := map[uint16]ref.Template{}
+		var tsets, dsets []ref.Set
+		rec := func(ks []flowh.Kind, r int) ref.Record {
+			var out ref.Record
+			for f, k := range ks {
+				out = append(out, flowh.FillValue(k, 0, r, f))
+			}
+			return out
+		}
+		switch mode {
+		case "records":
+			ks := []flowh.Kind{fixed[0], fixed[1%len(fixed)]}
+			t := ref.Template{ID: 300, Fields: []ref.Field{ks[0].F, ks[1].F}}
+			tpls[300] = t
+			var rs []ref.Record
+			for r := 0; r < n; r++ {
+				rs = append(rs, rec(ks, r))
+			}
+			tsets = []ref.Set{{Kind: ref.SetTemplates, Templates: []ref.Template{t}}}
+			dsets = []ref.Set{{Kind: ref.SetData, TemplateID: 300, Records: rs}}
+		case "fields":
+			var ks []flowh.Kind
+			t := ref.Template{ID: 300}
+			for i := 0; i < n; i++ {
+				k := fixed[i%len(fixed)]
+				ks = append(ks, k)
+				t.Fields = append(t.Fields, k.F)
+			}
+			tpls[300] = t
+			tsets = []ref.Set{{Kind: ref.SetTemplates, Templates: []ref.Template{t}}}
+			dsets = []ref.Set{{Kind: ref.SetData, TemplateID: 300, Records: []ref.Record{rec(ks, 0), rec(ks, 1)}}}
+		case "sets":
+			ka, kb := []flowh.Kind{fixed[0]}, []flowh.Kind{fixed[1%len(fixed)], fixed[2%len(fixed)]}
+			ta := ref.Template{ID: 300, Fields: []ref.Field{ka[0].F}}
+			tb := ref.Template{ID: 301, Fields: []ref.Field{kb[0].F, kb[1].F}}
+			tpls[300], tpls[301] = ta, tb
+			tsets = []ref.Set{{Kind: ref.SetTemplates, Templates: []ref.Template{ta, tb}}}
+			for i := 0; i < n; i++ {
+				if i%2 == 0 {
+					dsets = append(dsets, ref.Set{Kind: ref.SetData, TemplateID: 300, Records: []ref.Record{rec(ka, i)}})
+				} else {
+					dsets = append(dsets, ref.Set{Kind: ref.SetData, TemplateID: 301, Records: []ref.Record{rec(kb, i)}})
+				}
+			}
+		case "templates":
+			var ts []ref.Template
+			for i := 0; i < n; i++ {
+				k := fixed[i%len(fixed)]
+				t := ref.Template{ID: uint16(256 + i), Fields: []ref.Field{k.F, fixed[(i+1)%len(fixed)].F}}
+				ts = append(ts, t)
+				tpls[t.ID] = t
+			}
+			tsets = []ref.Set{{Kind: ref.SetTemplates, Templates: ts}}
+			for _, i := range []int{0, n / 2, n - 1} {
+				ks := []flowh.Kind{fixed[i%len(fixed)], fixed[(i+1)%len(fixed)]}
+				dsets = append(dsets, ref.Set{Kind: ref.SetData, TemplateID: uint16(256 + i), Records: []ref.Record{rec(ks, i)}})
+			}
+		case "varlen":
+			if v9 || vstr == nil {
+				c.Skip()
+				return
+			}
+			t := ref.Template{ID: 300, Fields: []ref.Field{vstr.F, fixed[0].F}}
+			tpls[300] = t
+			lens := []int{9, 0, 1, 3, 254, 255, 256, 2, 300, 7}
+			var rs []ref.Record
+			total := 0
+			for r := 0; r < n; r++ {
+				l := lens[r%len(lens)]
+				b := make([]byte, l)
+				for i := range b {
+					b[i] = byte('a' + (i+r)%26)
+				}
+				total += l + 3 + int(fixed[0].F.Len)
+				rs = append(rs, ref.Record{ref.Value{Raw: b}, flowh.FillValue(fixed[0], 0, r, 1)})
+			}
+			if total > 60000 {
+				c.Skip()
+				return
+			}
+			tsets = []ref.Set{{Kind: ref.SetTemplates, Templates: []ref.Template{t}}}
+			dsets = []ref.Set{{Kind: ref.SetData, TemplateID: 300, Records: rs}}
+		}
+		fc := &flowCase{V9: v9, Tpls: tpls, Desc: fmt.Sprintf("%s = %d, templates in the same message = %v", mode, n, same)}
+		nrec := 0
+		for _, s := range dsets {
+			nrec += len(s.Records)
+		}
+		if same {
+			fc.Msg = &ref.Msg{V9: v9, Hdr: hdrFor(v9, nrec+len(tpls)), Sets: append(append([]ref.Set{}, tsets...), dsets...)}
+		} else {
+			fc.Pre = []*ref.Msg{{V9: v9, Hdr: hdrFor(v9, len(tpls)), Sets: tsets}}
+			fc.Msg = &ref.Msg{V9: v9, Hdr: hdrFor(v9, nrec), Sets: dsets}
+		}
+		if len(fc.Msg.Encode(tpls)) > 65000 || (len(fc.Pre) > 0 && len(fc.Pre[0].Encode(tpls)) > 65000) {
+			c.Skip()
+			return
+		}
+		runFlowCase(c, fc, name+":counts:"+mode)
+		c.Nontrivial(fc.hash)
+		if idx%37 == 0 {
+			c.Sample(func() interface{} { return map[string]interface{}{"desc": fc.Desc, "v9": v9} })
+		}
 	}}
 }
